@@ -349,7 +349,7 @@ func checkC02(p *Prog, c *Check) {
 		switch {
 		case f.ok:
 			c.OK("R2.4", f.cons, f.pos, f.how)
-		case f.unk && f.top != nil && evaluatedOK(c, "R2.4", f.top):
+		case f.unk && f.top != nil && (evaluatedOK(c, "R2.4", f.top) || allEvaluatedOK(c, "R2.4", f.tops)):
 			c.OK("R2.4", f.cons, f.pos, "not decided structurally ("+f.how+"); backed by the evaluation: the remaining length equals the bytes that follow on every well-formed abstract packet state of the type")
 		case f.unk:
 			c.Unk("R2.4", f.cons, f.pos, f.how)
